@@ -7,6 +7,7 @@ from vlib import boot
 pyrepseq = boot.import_pyrepseq()
 
 PROPERTY = "C01"
+QUICK_SCALE = 4
 RULE = ("exhaustive: every string of length 0..L over a 2-3 letter alphabet handed to the engine in ONE call "
         "(all pairs at once), for k=1..4, with and without every string duplicated; random: clonal-family "
         "repertoires (founders + 0-3 edits biased to homopolymer runs, duplicates, empty and very short strings) "
